@@ -74,6 +74,11 @@ var witnesses = []Witness{
 		set(up("t1", "/c/l[k=x]/v", "7"), up("t1", "/c/l[k=xy]/v", "8"), up("t1", "/c/m[k1=1][k2=2]/v", "9"), up("t1", "/c/m[k1=10][k2=2]/v", "10")),
 		set(del("t1", "/c/l[k=x]")), set(del("t1", "/c/m[k1=1][k2=2]")),
 	}},
+	{"late-apply-of-subtree-delete-then-resync", []string{"C04", "C02"}, []engine.Step{
+		set(up("t1", "/c/l[k=x]/v", "v1")), set(del("t1", "/c")),
+		set(del("t1", "/c/l[k=x]/sub"), del("t1", "/c/l[k=x]/in[id=1]"), del("t1", "/c/m[k1=1][k2=2]"), del("t1", "/c/l[k=y]"), up("t1", "/foo", "v3")),
+		env("connect", "t1"), setSync(up("t1", "/goo", "v5")), env("replace-conn", "t1"),
+	}},
 	{"overlapping-sets-are-answered", []string{"C08", "C02", "C09"}, []engine.Step{
 		env("connect", "t1"), setNoWait(up("t1", "/foo", "v1")), setNoWait(up("t1", "/bar", "v2")), setNoWait(up("t1", "/goo", "v3")), set(up("t1", "/foo", "v4")),
 	}},
